@@ -14,6 +14,7 @@ import (
 	"github.com/ajitpratap0/GoSQLX/pkg/sql/parser"
 	"github.com/ajitpratap0/GoSQLX/pkg/sql/tokenizer"
 
+	"verif/checks/c08/probe"
 	"verif/engine/common"
 	"verif/lexgen"
 	"verif/sqlgen"
@@ -171,10 +172,76 @@ func checkInput(c *common.Ctx, input, class string) {
 			c.Fail("not-reproducible:"+e.name, fmt.Sprintf("two calls differ: %v / %v", err, err2))
 		}
 	}
+	if anyFail && stage == "parse" {
+		history(c, input)
+	}
 	if anyFail {
 		c.NonTrivial()
 	} else {
 		c.Outcome("accepted")
+	}
+}
+
+var (
+	nestProbe     string
+	nestProbeToks []models.TokenWithSpan
+)
+
+// history evaluates "the same input always produces the same code, message and location" and "limit codes for limit
+// violations only" across a history instead of across two fresh calls: a rejected input is followed, on the same
+// Parser object and inside one recovery call, by a statement that sits exactly at the nesting limit (accepted on a
+// fresh parser) and by the rejected input again.  Whatever the failed parse left behind must not show.
+func history(c *common.Ctx, input string) {
+	if nestProbe == "" {
+		nestProbe = probe.NestSQL(probe.MaxNest())
+		nestProbeToks = probe.MustTokenize(nestProbe)
+	}
+	tk := tokenizer.GetTokenizer()
+	toks, err := tk.Tokenize([]byte(input))
+	if err == nil {
+		toks = append([]models.TokenWithSpan{}, toks...)
+	}
+	tokenizer.PutTokenizer(tk)
+	if err != nil {
+		return
+	}
+	fresh := func(t []models.TokenWithSpan) error {
+		p := parser.NewParser()
+		defer p.Release()
+		_, e := p.ParseFromModelTokensWithPositions(t)
+		return e
+	}
+	want := fresh(toks)
+	if want == nil || fresh(nestProbeToks) != nil {
+		return
+	}
+	p := parser.NewParser()
+	defer p.Release()
+	_, e1 := p.ParseFromModelTokensWithPositions(toks)
+	_, ep := p.ParseFromModelTokensWithPositions(nestProbeToks)
+	_, e2 := p.ParseFromModelTokensWithPositions(toks)
+	ow := observe(want)
+	for i, got := range []error{e1, e2} {
+		if got == nil {
+			c.Fail("history-dependent:reused-parser", fmt.Sprintf("call %d on a reused parser accepts what a fresh parser rejects with %v", 2*i+1, want))
+		} else if o := observe(got); o.code != ow.code || o.msg != ow.msg || o.loc != ow.loc {
+			c.Fail("history-dependent:reused-parser", fmt.Sprintf("call %d on a reused parser reports %v, a fresh parser %v", 2*i+1, got, want))
+		}
+	}
+	if ep != nil {
+		c.Fail("limit-code-without-violation:reused-parser:"+observe(ep).code, fmt.Sprintf("after this rejected input the same parser rejects a statement at (not over) the nesting limit: %s", common.Trim(ep.Error(), 300)))
+	}
+	// one recovery call: the rejected input, then the statement at the limit
+	_, errsAlone := gosqlx.ParseWithRecovery(input)
+	_, errsBoth := gosqlx.ParseWithRecovery(input + "\n;\n" + nestProbe)
+	codes := map[string]bool{}
+	for _, e := range errsAlone {
+		codes[observe(e).code] = true
+	}
+	for _, e := range errsBoth {
+		if o := observe(e); (o.code == "E2007" || o.code == "E2011") && !codes[o.code] {
+			c.Fail("limit-code-without-violation:recovery:"+o.code, fmt.Sprintf("recovery of the input followed by a statement at (not over) the nesting limit reports the limit code %s, which the input alone does not: %s", o.code, common.Trim(e.Error(), 300)))
+		}
 	}
 }
 
@@ -184,7 +251,7 @@ func Check() *common.Check {
 		ID:    "C13",
 		Level: "exploration",
 		Rule: "inputs: every single-token deletion, duplication and replacement (6 hostile tokens) of a spread of 300 (quick) / 2000 (thorough) sqlgen statements; all fragment strings of length <=3 (quick) / <=4 (thorough) over lexgen's 37-fragment lexical alphabet (bad escapes, unterminated literals, lone punctuation, control bytes); " +
-			"nesting beyond the depth limit in 6 constructs; an input one byte over the size limit; each through 10 failing-capable entry points. distinct = distinct input text; non-trivial = at least one entry point rejects the input",
+			"nesting beyond the depth limit in 6 constructs; an input one byte over the size limit; each through 10 failing-capable entry points; every input the parser (not the tokenizer) rejects is also run as a history: rejected input, a statement exactly at the nesting limit, the rejected input again - on one Parser object and (first two) inside one recovery call. distinct = distinct input text; non-trivial = at least one entry point rejects the input",
 		Assume: []string{"stage of a failure = whether tokenizer.Tokenize alone rejects the input", "message template = message with quoted/numeric parts removed, first five words before the first colon"},
 		Enumerate: func(e *common.Enum) {
 			seen := map[string]bool{}
